@@ -489,23 +489,6 @@ fn net_rate(v: &NR, e: usize) -> f64 {
 // ---------------------------------------------------------------------------------------------
 // C04: forbidden edges / turns, judged from the raw restriction inputs
 
-fn si_d(u: &DistanceUnit) -> f64 {
-    match u {
-        DistanceUnit::Meters => 1.0,
-        DistanceUnit::Kilometers => 1000.0,
-        DistanceUnit::Miles => 1609.344,
-        DistanceUnit::Inches => 0.0254,
-        DistanceUnit::Feet => 0.3048,
-    }
-}
-fn si_w(u: &WeightUnit) -> f64 {
-    match u {
-        WeightUnit::Pounds => 0.45359237,
-        WeightUnit::Tons => 907.18474,
-        WeightUnit::Kg => 1.0,
-    }
-}
-
 /// Some(true) clearly allowed, Some(false) clearly forbidden, None within 0.3 % of the limit
 fn restriction_verdict(r: &Restr, p: &VParams) -> Option<bool> {
     let (v, lim) = match r {
@@ -1037,6 +1020,45 @@ fn shape_for(p: Prop, c: &mut SCase, rng: &mut Rng) {
         }
         Prop::C04 => {
             c.reverse = false;
+            if !c.frontier.iter().any(|f| matches!(f, Fr::Vehicle { .. })) && rng.chance(1, 2) {
+                // a vehicle-restriction model on most edges, limits straddling the vehicle's dimensions
+                let n_e = c.edges.len();
+                let params = VParams {
+                    height: (0.5 + rng.small_decimal(5, 1), *rng.pick(&DU)),
+                    width: (0.5 + rng.small_decimal(4, 1), *rng.pick(&DU)),
+                    total_length: (1.0 + rng.small_decimal(30, 0), *rng.pick(&DU)),
+                    trailer_length: (1.0 + rng.small_decimal(20, 0), *rng.pick(&DU)),
+                    total_weight: (1.0 + rng.small_decimal(40, 0), *rng.pick(&WU)),
+                    axles: 1 + rng.below(5) as u8,
+                };
+                let factors = [0.9, 0.96, 0.995, 1.005, 1.04, 1.1, 2.0, 3.0];
+                let picked: Vec<usize> = (0..n_e).filter(|_| rng.chance(2, 3)).collect();
+                let rows = picked
+                    .into_iter()
+                    .map(|e| {
+                        let f = *rng.pick(&factors);
+                        let r = if rng.chance(1, 2) {
+                            let unit = *rng.pick(&WU);
+                            let per_axle = rng.chance(1, 2);
+                            let w = params.total_weight.0 * si_w(&params.total_weight.1) / si_w(&unit);
+                            let w = if per_axle { w / params.axles as f64 } else { w };
+                            Restr::Weight { per_axle, limit: w * f, unit }
+                        } else {
+                            let which = 2 + rng.below(4) as u8;
+                            let unit = *rng.pick(&DU);
+                            let dim = match which {
+                                2 => params.total_length,
+                                3 => params.width,
+                                4 => params.height,
+                                _ => params.trailer_length,
+                            };
+                            Restr::Length { which, limit: dim.0 * si_d(&dim.1) / si_d(&unit) * f, unit }
+                        };
+                        (e, vec![r])
+                    })
+                    .collect();
+                c.frontier.push(Fr::Vehicle { rows, params });
+            }
             if c.frontier.is_empty() {
                 let n_e = c.edges.len();
                 let table: Vec<u8> = (0..n_e).map(|_| rng.below(3) as u8).collect();
